@@ -156,20 +156,28 @@ def run(ctx):
                 v["input"] = {"cmd": [lexe, "replay", p, inp["law"]] + [str(b) for b in inp.get("bits", [])], "law": None, "args": inp.get("args")}
                 del v["input"]["law"]
             violations.append(v)
-        if r["coq_disagree"]:
-            # a concrete input on which the libm build departs from the model of the std behaviour
-            for i in r["coq_disagree"][:3]:
+        excluded = set(ctx["cfg"].get("ill_conditioned_groups", {}).get(p, []))
+        diff_idx = {d["index"]: d for d in r["diff"]}
+        if p == prop:
+            # the float methods themselves: the model's own tolerances decide (exact for the IEEE-specified ones)
+            bad = [(i, None) for i in r["coq_disagree"]] + [(i, d) for i, d in diff_idx.items() if i not in r["coq_disagree"]]
+        else:
+            # another property's cases: a departure counts when the libm build leaves BOTH the model (under that
+            # property's own tolerances) and the std build (beyond 1e-9 relative, or in a discrete output); a
+            # last-bit difference in an exactly compared group (powi through libm's pow, …) is expected and is
+            # only counted in the evidence
+            bad = [(i, diff_idx[i]) for i in r["coq_disagree"] if i in diff_idx and (rows.get(i) or ("",))[0] not in excluded]
+        per[p]["departures_counted"] = len(bad)
+        per[p]["excluded_groups"] = sorted(excluded)
+        if bad:
+            for i, d in bad[:3]:
                 row = rows.get(i)
                 violations.append({"class": "libm-build:%s:%s" % (p, row[0] if row else "?"),
-                                   "desc": "under the libm backend the implementation disagrees with the model (which the std build matches) on group %s op %s: args %s -> %s"
-                                           % ((row[0], row[1], row[2], row[3]) if row else ("?", "?", "?", "?")),
-                                   "input": {"property": p, "case_index": i, "args": row[2] if row else None, "libm_output": row[3] if row else None}})
-        elif r["diff"]:
-            for d in r["diff"][:3]:
-                violations.append({"class": "std-vs-libm:%s:%s" % (p, d["group"]),
-                                   "desc": "std and libm builds disagree beyond 1e-9 relative (or on a discrete output) on group %s op %s args %s: std %s, libm %s"
-                                           % (d["group"], d["op"], d["args"], d["std"], d["libm"]),
-                                   "input": d})
+                                   "desc": "under the libm backend the implementation departs from the model%s on group %s op %s: args %s -> libm %s%s"
+                                           % (" and from the std build" if d else "", row[0] if row else "?", row[1] if row else "?", row[2] if row else "?",
+                                              row[3] if row else "?", (", std %s" % d["std"]) if d else ""),
+                                   "input": {"property": p, "case_index": i, "args": row[2] if row else None, "libm_output": row[3] if row else None,
+                                             "std_output": d["std"] if d else None}})
         else:
             discharged += 1
     ev["per_property_under_libm"] = per
